@@ -716,7 +716,72 @@ func c16SameRing(a, b []orb.Point) bool {
 
 var c17TagPool = []string{"name=x", "building=yes", "highway=residential", "source=survey", "created_by=josm", "natural=water", "area=yes", "area=no", "landuse=forest", "barrier=wall", "amenity=cafe", "note=n"}
 
+// c17GenLong: one route (or multipolygon) relation over a chain of 7..11 two- and three-node ways listed in a
+// shuffled order - long enough that joining them moves pending segments around in every way the joiner can.
+func c17GenLong(r *Rng) (nodes, ways, rels []string) {
+	m := 7 + r.Intn(5)
+	closed := r.Chance(40)
+	// distinct lattice points along a zig-zag
+	var ids [][]int
+	next := 1
+	pt := func(i int) (int, int) { return 1 + i, 1 + (i*i)%5 + 6*(i%2) }
+	cur := next
+	next++
+	for w := 0; w < m; w++ {
+		l := []int{cur}
+		for k := 1 + r.Intn(2); k > 0; k-- {
+			l = append(l, next)
+			next++
+		}
+		cur = l[len(l)-1]
+		ids = append(ids, l)
+	}
+	if closed {
+		ids[m-1] = append(ids[m-1], 1)
+	}
+	for i := 1; i < next; i++ {
+		lon, lat := pt(i)
+		nodes = append(nodes, fmt.Sprintf("%d~%d~%d~1~%d~%d~-", i, lon, lat, r.Intn(3), r.Intn(2)))
+	}
+	var ms []string
+	for w, l := range ids {
+		refs := make([]string, len(l))
+		for i, id := range l {
+			refs[i] = strconv.Itoa(id)
+		}
+		if r.Chance(30) { // some members run the other way
+			for a, b := 0, len(refs)-1; a < b; a, b = a+1, b-1 {
+				refs[a], refs[b] = refs[b], refs[a]
+			}
+		}
+		tags := "-"
+		if r.Chance(30) {
+			tags = "highway=residential"
+		}
+		ways = append(ways, fmt.Sprintf("%d~%d~%d~%d~%s~%s", 101+w, r.Intn(3), r.Intn(3), r.Intn(2), tags, strings.Join(refs, ",")))
+		role := "outer"
+		if !closed {
+			role = []string{"", "forward"}[r.Intn(2)]
+		}
+		ms = append(ms, fmt.Sprintf("w%d/%s/0", 101+w, role))
+	}
+	p := r.Perm(len(ms))
+	sh := make([]string, len(ms))
+	for i, j := range p {
+		sh[i] = ms[j]
+	}
+	typ := "type=route"
+	if closed && r.Bool() {
+		typ = "type=multipolygon,landuse=forest"
+	}
+	rels = append(rels, fmt.Sprintf("201~%d~%d~%d~%s~%s", r.Intn(3), r.Intn(3), r.Intn(2), typ, strings.Join(sh, ";")))
+	return
+}
+
 func c17GenData(r *Rng) (nodes, ways, rels []string) {
+	if r.Chance(5) {
+		return c17GenLong(r)
+	}
 	nn := r.Intn(9)
 	type nd struct{ lon, lat int }
 	pos := map[int]nd{}
